@@ -25,7 +25,7 @@ CHECKS = {
  "C01": ("exploration", "reference-model monitor: generated programs evaluated by an independent reference interpreter and by the real lexer/parser/compiler/VM, outcomes compared; exhaustive operator-pair precedence and evaluation-order probes",
          "Tens of thousands (quick) to millions (thorough) of generated programs plus fixed probe programs agree with an executable model of the pinned language rules on value, error class, printed output and final globals; held on the programs generated, with generator feature coverage enforced.",
          "The reference interpreter is a specification reconstructed from the implementation and its tests at the pinned commit (design/LANGUAGE_RULES.md); constructs whose behaviour is not pinned are not generated; undecidable programs are discarded and counted.", "DESIGN.md §2, §5 C01"),
- "C12": ("exploration", "recording OS + real-OS canaries + real stdio capture + strace syscall monitor over every live os/filepath/fmt function, OS builtin and file method in 5 execution contexts x 2 OS-supply routes",
+ "C12": ("exploration", "recording OS + real-OS canaries + real stdio capture + strace syscall monitor over every live os/filepath/fmt function, OS builtin and file method in 10 execution contexts (top level, spawn, go, clone, module, late clone/call, deferred call under a passed deadline, bare VirtualOS, globals map shared with an earlier evaluation) x 2 OS-supply routes",
          "Every live operation is executed under a recording OS in every context/route; the oracle is that the recording OS saw it and that canaries, real stdio and the strace trace show no access carrying the sentinel token. Held on the operations and argument shapes explored.",
          "strace must be available (preflight, else inconclusive); file-object method names are read from the source tree the binary was built from.", "DESIGN.md §5 C12"),
  "C14": ("exploration", "recording fs.FS + strace for import paths, execution-count (tick) monitor and shared-state/separate-globals value monitor over generated module graphs and import spellings",
@@ -62,7 +62,7 @@ CHECKS = {
          "Every enumerated (type, value, route) either converts to a script value with equal contents that converts back to an equal Go value, or is rejected with an error; a Go panic (escaping or VM-recovered) is never accepted; field writes read back equal from both sides; Go methods receive exactly the arguments passed. Types to depth 2 are exhaustive over the base-kind roster, depth 3 sampled (quick) / enumerated (thorough).",
          "nil and empty slices/maps are not told apart; inside interface positions only contents are compared. Converter caches are process-global, so types are spread over fresh worker processes.", "DESIGN.md §5 C08"),
  "C06": ("exploration", "bounded-progress monitor: logical cancellation instants (k-th host tick / parked signal), tick counters sampled after return, errors.Is on the returned error; race detector on the goroutine-spawning sample",
-         "Liveness is restated as bounded progress: for 41 non-terminating or blocking program shapes (loop forms, recursion, callbacks inside builtins, blocked channel operations, sleep, thread.wait) x goroutine nesting to depth 3 x cancellation instants x {cancel, deadline}, Eval returns with an error satisfying errors.Is(err, ctx.Err()), at most a bounded number of further ticks happen, and the tick counter stops after return. Held on the shapes and instants explored.",
+         "Liveness is restated as bounded progress: for about 55 non-terminating or blocking program shapes (loop forms, recursion, callbacks inside builtins, blocked channel operations, sleep, thread.wait, exec of children that ignore signals) x goroutine nesting to depth 3 x cancellation instants x {cancel, deadline}, Eval returns with an error satisfying errors.Is(err, ctx.Err()), at most a bounded number of further ticks happen, and the tick counter stops after return. Held on the shapes and instants explored.",
          "An unbounded 'eventually' cannot be decided by a finite run; the watchdog (10 s) is the only wall-clock element and a hit is re-run alone and must repeat to count.", "DESIGN.md §5 C06"),
  "C07": ("exploration", "differential history monitor: invocation histories (RunCode / Call / REPL-style Run; value, error, panic, overflow, cancelled; cancel events of earlier contexts made deterministic with the VerifHalt hook) on one VM compared with the same invocation on a fresh VM; absolute invariants (running=false, fp=0, sp restored); race detector on a sample",
          "All histories of length <= 3 over the alphabet (exhaustive) and sampled histories up to length 6 give, for every invocation, the result and error it gives on a fresh VM, never (nil, nil) or a partial value.",
